@@ -144,6 +144,16 @@ CHECKS = {
             "tip, plume axis, depth 0, poles, +-180 meridian with +-0.0, planet centre, model bottom, far away) on generated "
             "worlds of every feature type, finite-or-exception and no dead/hanging process; thorough tier under ASan+UBSan.",
             "proof of totality and finiteness-preservation of the slot machinery + degenerate-location search (sanitizers in the thorough tier)", "4 C13"),
+    "C12": ("Partial. Theorems (Properties_C12.v, axiom-free, every number interpretation): once the five plume tables have the "
+            "same non-zero length - what the constructor has to enforce by throwing - every table read of the cross-section "
+            "lookup is inside its table for every depth (the totalised nth of the model never returns its default). Not a "
+            "theorem and not expressible in an executable model: crash freedom of rapidjson parsing, schema validation and "
+            "object construction on arbitrary bytes. Decided by the search: byte-damaged, structurally damaged, "
+            "length-inconsistent and re-formatted documents derived from generated worlds of every feature type; outcomes "
+            "success / std::exception with a message only, schema-invalid (python jsonschema on the published schema) and "
+            "length-inconsistent documents must be rejected, formatting variants must answer bit-identically; thorough tier "
+            "under ASan+UBSan.",
+            "proof of in-bounds table reads under the enforced length checks + damaged-document search (sanitizers in the thorough tier)", "4 C12"),
 }
 
 NOT_YET = {
